@@ -52,6 +52,17 @@ def build(S):
         fill(st.inflow, s["dims"], s["cin"], S["g"])
         fill(st.outflow, s["dims"], s["cout"], S["g"])
         fill(st.stock, s["dims"], s["level"], S["g"])
+    # every second array holds its values in a non-C-contiguous buffer (as after set_values(x.T) or a cast):
+    # exports must go by label, not by memory order
+    k = 0
+    for f in mfa.flows.values():
+        k += 1
+        if k % 2 == 0 and f.values.ndim >= 2:
+            f.set_values(np.asfortranarray(f.values.copy()))
+    for st in mfa.stocks.values():
+        if st.stock.values.ndim >= 2:
+            st.stock.set_values(np.asfortranarray(st.stock.values.copy()))
+            st.inflow.set_values(np.asfortranarray(st.inflow.values.copy()))
     definition = flodym.MFADefinition(
         dimensions=[flodym.DimensionDefinition(name=DIMOBJ[l].name, letter=l, dtype=DIMOBJ[l].dtype) for l in CANON],
         processes=list(S["procs"]), flows=fdefs, stocks=sdefs, parameters=[])
